@@ -80,6 +80,13 @@ func genRelPath(rng *rand.Rand, maxLen int, big bool) *gpb.Path {
 			}
 			e.Key[randIdent(rng)] = randValue(rng, 3, nastyRunes) + "x"
 		}
+		if big && rng.Intn(4) == 0 {
+			// boundary: an empty key value (a missing key reads as "" in Go)
+			if e.Key == nil {
+				e.Key = map[string]string{}
+			}
+			e.Key[pick(rng, []string{"k1", "k2", "id", "name"})] = ""
+		}
 		p.Elem = append(p.Elem, e)
 	}
 	return p
@@ -102,6 +109,13 @@ func mutateRel(rng *rand.Rand, p *gpb.Path) *gpb.Path {
 				k := pick(rng, relKeysA)
 				if rng.Intn(4) == 0 {
 					delete(e.Key, k)
+				} else if rng.Intn(8) == 0 {
+					// rename the key, keep the value: same size, different key name
+					v, ok := e.Key[k]
+					if ok {
+						delete(e.Key, k)
+						e.Key[pick(rng, []string{"id", "name", "k3"})] = v
+					}
 				} else {
 					if e.Key == nil {
 						e.Key = map[string]string{}
@@ -263,6 +277,7 @@ func pathrelStream(rng *rand.Rand, n int, tier string, out string) (*Summary, er
 	id := 0
 	seen := map[string]bool{}
 
+	mk := func(elems ...*gpb.PathElem) *gpb.Path { return &gpb.Path{Elem: elems} }
 	compareCase := func(a, b *gpb.Path, kind string) {
 		r := util.ComparePaths(a, b)
 		for i := 0; i < 7; i++ { // sample map iteration orders
@@ -386,12 +401,45 @@ func pathrelStream(rng *rand.Rand, n int, tier string, out string) (*Summary, er
 	}
 
 	// the two confirmed pre-fix failures first
-	mk := func(elems ...*gpb.PathElem) *gpb.Path { return &gpb.Path{Elem: elems} }
 	compareCase(mk(&gpb.PathElem{Name: "a", Key: map[string]string{"k1": "*", "k2": "v"}}, &gpb.PathElem{Name: "b", Key: map[string]string{"k1": "v"}}),
 		mk(&gpb.PathElem{Name: "a", Key: map[string]string{"k1": "v", "k2": "*"}}, &gpb.PathElem{Name: "b", Key: map[string]string{"k1": "w"}}), "corpus")
 	compareCase(mk(&gpb.PathElem{Name: "a", Key: map[string]string{"k1": "*", "k2": "v"}}),
 		mk(&gpb.PathElem{Name: "a", Key: map[string]string{"k1": "v", "k2": "w"}}), "corpus")
 
+	// element-equality family: both elements drawn independently from a tiny alphabet of key
+	// names and values (incl. the empty string), so that "same size, different key names",
+	// "missing key vs empty value" and similar boundary pairs occur often
+	smallElem := func() *gpb.PathElem {
+		e := &gpb.PathElem{Name: pick(rng, []string{"a", "a", "b"})}
+		for _, k := range []string{"k1", "k2", "id"} {
+			if rng.Intn(3) == 0 {
+				if e.Key == nil {
+					e.Key = map[string]string{}
+				}
+				e.Key[k] = pick(rng, []string{"", "v", "w", "*"})
+			}
+		}
+		return e
+	}
+	for i := 0; i < n/10; i++ {
+		ea, eb := smallElem(), smallElem()
+		cf.add(fmt.Sprintf("RElemEq %d %s %s %s", id, coqElem(ea), coqElem(eb), coqBool(util.PathElemsEqual(ea, eb))))
+		id++
+		sum.OracleRuns++
+		// oracle: equality of elements is equality of names and of key maps
+		same := ea.Name == eb.Name && len(ea.Key) == len(eb.Key)
+		for k, v := range ea.Key {
+			if w, ok := eb.Key[k]; !ok || w != v {
+				same = false
+			}
+		}
+		if util.PathElemsEqual(ea, eb) != same {
+			sum.finding(Finding{Signature: "elem-equal", What: "PathElemsEqual disagrees with equality of names and key maps", Input: map[string]interface{}{"a": toJGP(mk(ea)), "b": toJGP(mk(eb))}})
+		}
+		pa, pb := mk(&gpb.PathElem{Name: "r"}, ea, &gpb.PathElem{Name: "z"}), mk(&gpb.PathElem{Name: "r"}, eb)
+		otherCases(pa, pb)
+		sum.count("compare_kind", "elem-family")
+	}
 	for id < n {
 		big := rng.Intn(5) == 0
 		a := genRelPath(rng, 3, big)
